@@ -1,0 +1,43 @@
+//go:build verif
+// +build verif
+
+// Contracts for deductive verification (govc, /verif). Comment-only file.
+
+package miner
+
+// ---- C13: what a produced block contains ----
+// poolOrder / poolContent (trusted spec): the list State.GetUnconfirmedTx returned.
+// sizeSum(c, k): serialized size of the first k transactions of c (proto.Size is a
+// trusted pure function of the message).
+//@ spec func sizeSum(c intarr, k int) int = k <= 0 ? 0 : sizeSum(c, k - 1) + proto.Size(boxed(asTx(sel(c, k - 1))))
+
+// The transactions selected from the pool are a PREFIX of the pool's order - the
+// first one that does not fit ends the selection, so nothing is packed without
+// everything the pool placed before it - and they fit the size budget.
+//@ func Miner.getUnconfirmedTx
+//@   property C13
+//@   let budget = sizeLimit
+//@   ensures prefix_of_pool_order: result1 == nil ==> len(result0) <= len(asTxs(poolOrder)) && (forall k int :: 0 <= k && k < len(result0) ==> result0[k] == sel(poolContent, k))
+//@   ensures within_budget: result1 == nil && len(result0) > 0 ==> sizeSum(poolContent, len(result0)) <= budget
+//@   ensures stops_only_at_first_misfit: result1 == nil && len(result0) < len(asTxs(poolOrder)) ==> proto.Size(boxed(asTx(sel(poolContent, len(result0))))) > budget - sizeSum(poolContent, len(result0))
+//@   ensures pool_error_passed_on: result1 != nil ==> result0 == nil
+//@   loop 1 invariant prefix: unconfirmedTxs == poolOrder && content(asTxs(poolOrder)) == poolContent && 0 <= $i && $i <= len(asTxs(poolOrder)) && len(txList) == $i && (forall k int :: 0 <= k && k < $i ==> txList[k] == sel(poolContent, k)) && sizeLimit == budget - sizeSum(poolContent, $i) && ($i > 0 ==> sizeLimit >= 0)
+
+// A block is the award, then the timer transaction when it writes anything, then
+// the pool prefix in pool order, formatted for the asked height on the state's tip.
+//@ func Miner.packBlock
+//@   property C13
+//@   at Ledger.FormatMinerBlock assert award_then_timer_then_pool_prefix: len($0) >= 1 && $0[0] == awardTx && (len(autoTx.TxOutputsExt) > 0 ==> len($0) == 2 + len(generalTxList) && $0[1] == autoTx && (forall k int :: 0 <= k && k < len(generalTxList) ==> $0[2 + k] == generalTxList[k])) && (len(autoTx.TxOutputsExt) == 0 ==> len($0) == 1 + len(generalTxList) && (forall k int :: 0 <= k && k < len(generalTxList) ==> $0[1 + k] == generalTxList[k]))
+//@   at Ledger.FormatMinerBlock assert for_the_asked_height: $11 == height
+//@   at Miner.getAwardTx assert award_for_the_asked_height: $0 == height
+//@   at Miner.getTimerTx assert timer_for_the_asked_height: $0 == height
+
+// The award transaction is generated for the award of the asked height (awardAt,
+// the ledger contract's abstraction of CalcAward), to the miner's own address.
+//@ func Miner.getAwardTx
+//@   property C13
+//@   uses fmtParse
+//@   ensures passes_award_validation_at_that_height: result1 == nil ==> result0 != nil && result0.Coinbase && len(result0.TxOutputs) == 1 && natOf(result0.TxOutputs[0].Amount) == awardAt(t.ctx.Ledger.GenesisBlock, height)
+//@   at GenesisBlock.CalcAward assert award_of_the_asked_height: $0 == height
+//@   at GenerateAwardTx assert the_calculated_amount_to_the_miner: $1 == fmtDec(sel(bigval, amount)) && $0 == t.ctx.Address.Address
+//@   ensures negative_award_refused: result1 == nil ==> awardAt(t.ctx.Ledger.GenesisBlock, height) >= 0
